@@ -1,7 +1,7 @@
 from __future__ import annotations
 
 import string
-from typing import TYPE_CHECKING, Callable, ClassVar
+from typing import TYPE_CHECKING, Any, Callable, ClassVar
 
 from dissect.cstruct.exceptions import ExpressionParserError, ExpressionTokenizerError
 
@@ -225,6 +225,15 @@ class Expression:
     def is_number(self, token: str) -> bool:
         return token.isnumeric() or (len(token) > 2 and token[0] == "0" and token[1] in ("x", "X", "b", "B", "o", "O"))
 
+    @staticmethod
+    def _anonymous_member(context: dict[str, Any], name: str) -> Any:
+        """Look up a field that was read as a member of an anonymous structure (it is a field of the parent, too)."""
+        for value in context.values():
+            value_type = type(value)
+            if getattr(value_type, "__anonymous__", False) and name in value_type.lookup:
+                return getattr(value, name)
+        return None
+
     def evaluate(self, context: dict[str, int] | None = None) -> int:
         """Evaluates an expression using a Shunting-Yard implementation."""
 
@@ -252,6 +261,8 @@ class Expression:
                 queue.append(int(current_token, 0))
             elif current_token in context:
                 queue.append(int(context[current_token]))
+            elif (value := self._anonymous_member(context, current_token)) is not None:
+                queue.append(int(value))
             elif current_token in self.cstruct.consts:
                 queue.append(int(self.cstruct.consts[current_token]))
             elif current_token in self.unary_operators:
